@@ -244,7 +244,7 @@ def check_handler(prog, chk, h, role, fam, hl):
         ok = len(ver) == 1
         if ok:
             vn, vc = ver[0]
-            ok = fl.dominated([vn], guard_nodes=[sn]) and fl.dominated([act[0][0]], guard_nodes=[vn])
+            ok = fl.dominated([vn], guard_nodes=[sn]) and fl.dominated([act[0][0]], guard_nodes=[vn], complete=True)
             # _verify_key(host key bytes read first, signature read last)
             rd = alt["reads"]
             a0 = hl._slot(fl.expand(vc.args[0], vn)[0], unparse(vc.args[0]), rd)
@@ -295,7 +295,7 @@ def check_handler(prog, chk, h, role, fam, hl):
                 sigvar = gn.ast.targets[0].id if isinstance(gn.ast, ast.Assign) and isinstance(gn.ast.targets[0], ast.Name) else None
                 ok = ok and fields[1][1] == ks_text and len(pub_text) == 1 and fields[2][1] == pub_text[0] and fields[3][1] == sigvar
                 detail += " ; reply %s" % fields
-                ok = ok and fl.dominated([act[0][0]], guard_nodes=[gn]) and fl.dominated([gn], guard_nodes=[sn])
+                ok = ok and fl.dominated([act[0][0]], guard_nodes=[gn], complete=True) and fl.dominated([gn], guard_nodes=[sn])
         chk.ob("R6.server-signs-H", h.qual, ok, h.loc, detail)
         if fam in ("ecdh", "x25519"):
             chk.ob("R4.peer-point-bound", h.qual, check_peer_point(fl, hl, alt, role), h.loc,
